@@ -249,7 +249,11 @@ def exec_ops(prop, ops, race=False, timeout=1500):
             break
         # process died on op number len(got)
         crashed = todo[len(got)]
-        tail = perr.decode(errors="replace")[-3000:]
+        full = perr.decode(errors="replace")
+        tail = full[-3000:]
+        i = full.find("WARNING: DATA RACE")
+        if i >= 0:  # a race report can be longer than the tail: keep its head (the two conflicting accesses)
+            tail = full[i:i + 3000]
         sig = "process-crash"
         if timed_out:
             sig = "timeout"
